@@ -310,6 +310,121 @@ def part_a(rep, tier):
     return len(cases), len(distinct)
 
 
+# ---------------------------------------------------------------------------------------------------------------------
+# part M: the mass-matrix sweeper on several levels (imex_1st_order_mass + base_transfer_mass, numpy stand-in problem)
+# ---------------------------------------------------------------------------------------------------------------------
+MREC = None
+
+
+class MassDefectRecorder(Hooks):
+    """reported residual of a level against the defect of the equation this level holds, recomputed from u, f, tau:
+    finest level  M (u0 - U_m) + dt (Q F)_m ;  lower levels (u0 arrives mass-weighted)  u0 - M U_m + dt (Q F)_m + tau_m"""
+
+    def _rec(self, where, step, level_number):
+        rec = MREC
+        if rec is None:
+            return
+        L = step.levels[level_number]
+        if L.status.residual is None:
+            return
+        P, Sw = L.prob, L.sweep
+        M = Sw.coll.num_nodes
+        Q = q_matrix(Sw.coll.nodes)
+        norms, scale = [], 0.0
+        for m in range(1, M + 1):
+            r = np.zeros(P.nvars)
+            s = np.zeros(P.nvars)
+            for j in range(1, M + 1):
+                fj = np.asarray(L.f[j].impl) + np.asarray(L.f[j].expl)
+                r += L.dt * Q[m, j] * fj
+                s += L.dt * abs(Q[m, j]) * np.abs(fj)
+            if L.level_index == 0:
+                r += P.M @ (np.asarray(L.u[0]) - np.asarray(L.u[m]))
+                s += np.abs(P.M) @ (np.abs(np.asarray(L.u[0])) + np.abs(np.asarray(L.u[m])))
+            else:
+                r += np.asarray(L.u[0]) - P.M @ np.asarray(L.u[m])
+                s += np.abs(np.asarray(L.u[0])) + np.abs(P.M) @ np.abs(np.asarray(L.u[m]))
+            if L.tau[m - 1] is not None:
+                r += np.asarray(L.tau[m - 1])
+                s += np.abs(np.asarray(L.tau[m - 1]))
+            norms.append(np.max(np.abs(r)))
+            scale = max(scale, np.max(s))
+        rt = L.params.residual_type
+        ref = max(norms) if rt.startswith('full') else norms[-1]
+        tol = 500 * np.finfo(float).eps * scale + 1e-300
+        rec['n'] += 1
+        err = abs(float(L.status.residual) - ref)
+        rec['worst'] = max(rec['worst'], err / tol)
+        if not err <= tol and len(rec['bad']) < 3:
+            rec['bad'].append({'where': where, 'level': L.level_index, 'iter': step.status.iter, 'reported': float(L.status.residual), 'true': float(ref), 'tol': float(tol), 'carries_tau': L.tau[0] is not None})
+        if where == 'post_step':
+            rec['final'][L.level_index] = (float(L.status.residual), float(ref), float(scale))
+
+    def post_sweep(self, step, level_number):
+        super().post_sweep(step, level_number)
+        self._rec('post_sweep', step, level_number)
+
+    def post_step(self, step, level_number):
+        super().post_step(step, level_number)
+        for l in range(len(step.levels)):
+            self._rec('post_step', step, l)
+
+
+def mass_case(arg):
+    global MREC
+    from pySDC.implementations.sweeper_classes.imex_1st_order_mass import imex_1st_order_mass
+    from pySDC.implementations.transfer_classes.BaseTransfer_mass import base_transfer_mass
+
+    from vf.env.massenv import InjectionTransfer, MassHeat
+
+    nvars, rt, qt, QI = arg
+    common.silence_logging()
+    description = {
+        'problem_class': MassHeat,
+        'problem_params': {'nvars': list(nvars), 'nu': 0.5},
+        'sweeper_class': imex_1st_order_mass,
+        'sweeper_params': {'quad_type': qt, 'num_nodes': 3, 'QI': QI, 'QE': 'EE'},
+        'level_params': {'dt': 0.05, 'restol': 1e-11, 'nsweeps': 1, 'residual_type': rt},
+        'step_params': {'maxiter': 40},
+    }
+    if len(nvars) > 1:
+        description.update({'space_transfer_class': InjectionTransfer, 'base_transfer_class': base_transfer_mass, 'space_transfer_params': {'finest_nvars': nvars[0]}})
+    else:
+        description['problem_params']['nvars'] = nvars[0]
+    rec = {'n': 0, 'worst': 0.0, 'bad': [], 'final': {}}
+    try:
+        ctrl = controller_nonMPI(num_procs=1, controller_params={'logger_level': 90, 'dump_setup': False, 'hook_class': [MassDefectRecorder]}, description=description)
+        MREC = rec
+        P = ctrl.MS[0].levels[0].prob
+        ctrl.run(u0=P.u_exact(0.0), t0=0.0, Tend=0.1)
+    except Exception as e:  # noqa: BLE001
+        MREC = None
+        return arg, 'raised:' + type(e).__name__ + ':' + str(e)[:120], rec
+    MREC = None
+    return arg, 'ok', rec
+
+
+def part_mass(rep, tier):
+    cases = [(nv, rt, qt, QI) for nv in ((15,), (15, 7), (31, 15, 7)) for rt in ('full_abs', 'last_abs') for qt in ('RADAU-RIGHT', 'LOBATTO') for QI in (('LU', 'IE') if tier == 'thorough' else ('LU',))]
+    ncmp, worst, outcomes = 0, 0.0, {}
+    for arg, oc, rec in common.pmap(mass_case, cases, chunksize=1):
+        outcomes[oc.split(':')[0]] = outcomes.get(oc.split(':')[0], 0) + 1
+        ncmp += rec['n']
+        worst = max(worst, rec['worst'])
+        cfg = {'nvars': list(arg[0]), 'residual_type': arg[1], 'quad_type': arg[2], 'QI': arg[3]}
+        if oc != 'ok':
+            rep.violation({'kind': 'run_failed', 'part': 'mass', 'levels': len(arg[0])}, {'error': oc, 'cfg': cfg}, {'part': 'M', 'arg': [list(arg[0])] + list(arg[1:])})
+            continue
+        for b in rec['bad'][:1]:
+            rep.violation({'kind': 'residual_not_true_defect', 'part': 'mass', 'levels': len(arg[0]), 'level': b['level'], 'where': b['where']}, dict(b, cfg=cfg), {'part': 'M', 'arg': [list(arg[0])] + list(arg[1:])})
+        # consequence: when the run has converged, the equation of every level is satisfied - the reported residual vanishes
+        for lvl, (reported, true, scale) in rec['final'].items():
+            if true <= 1e-9 * max(scale, 1.0) and reported > 1e-6 * max(scale, 1.0) and not rec['bad']:
+                rep.violation({'kind': 'converged_but_residual_reported_large', 'part': 'mass', 'level': lvl}, {'reported': reported, 'defect': true, 'cfg': cfg}, {'part': 'M', 'arg': [list(arg[0])] + list(arg[1:])})
+    rep.coverage['partM'] = {'cases': len(cases), 'outcomes': outcomes, 'residual_comparisons': ncmp, 'worst_err_over_tol': worst, 'space': 'imex_1st_order_mass (+ base_transfer_mass) on a numpy mass-matrix problem: 1, 2, 3 levels x residual type (full_abs, last_abs) x quadrature (RADAU-RIGHT, LOBATTO) x QI'}
+    return len(cases)
+
+
 def variants_b(Ps, Ks, Ls, forced=False, nsweeps=1):
     out = []
     for L in Ls:
@@ -331,6 +446,7 @@ def run(rep, tier):
         'part B: residual answers scripted on the finest level in IT_CHECK; convergence at iteration 0 is admitted where the code admits it (iter > 0 or sweep > 0, sweep being initialised to 1)',
     ]
     ncases, ndistinct = part_a(rep, tier)
+    part_mass(rep, tier)
     plan = []
     if tier == 'quick':
         plan.append(('B full P<=3, K in 0..3, L<=2', variants_b((1, 2, 3), (0, 1, 2, 3), (1, 2)), None))
@@ -367,5 +483,13 @@ def replay(rep, case):
             rep.violation({'kind': 'residual_not_true_defect', 'cfg': c, 'where': b['where'], 'level': b['level']}, b, case)
         for b in (extra or {}).get('bad_log', [])[:3]:
             rep.violation({'kind': 'logged_residual', 'cfg': c, 'type': b['type']}, b, case)
+        return
+    if case.get('part') == 'M':
+        a = case['arg']
+        arg, oc, rec = mass_case((tuple(a[0]), a[1], a[2], a[3]))
+        if oc != 'ok':
+            rep.violation({'kind': 'run_failed', 'part': 'mass', 'levels': len(arg[0])}, {'error': oc}, case)
+        for b in rec['bad'][:1]:
+            rep.violation({'kind': 'residual_not_true_defect', 'part': 'mass', 'levels': len(arg[0]), 'level': b['level'], 'where': b['where']}, b, case)
         return
     _e1.replay_case(rep, make, case)
